@@ -315,6 +315,146 @@ fn failed_commit_case(h: &History, path: &std::path::Path, vio: &crate::vio::Vio
     Ok(injected)
 }
 
+fn changed_pages(a: &[u8], b: &[u8], ps: usize) -> Vec<usize> {
+    let n = a.len().max(b.len()) / ps + 1;
+    (0..n).filter(|i| {
+        let (lo, hi) = (i * ps, (i + 1) * ps);
+        a.get(lo..hi.min(a.len())) != b.get(lo..hi.min(b.len()))
+    }).collect()
+}
+
+/// (f) a write transaction in which every call FAILS (missing bucket, wrong kind of entry, missing key,
+/// existing bucket) and which is then committed must write exactly what a transaction without any call
+/// writes: an error-returning call may not even mark something for rewriting.
+/// (g) in strict mode a commit that the built-in check refuses (the file was made inconsistent by hand:
+/// one free-list entry dropped) must leave the committed state as it was.
+fn error_only_case(h: &History, path: &std::path::Path, viol: &mut Vec<(String, String)>) -> Result<u64, String> {
+    let _ = std::fs::remove_file(path);
+    let out = exec::run_history(h, &ExecCfg::default(), path);
+    if out.aborted {
+        return Err(crate::report::workload_failure(out.violations.first(), "could not build the state"));
+    }
+    let mut model = MBucket::default();
+    replay_model(h, &mut model);
+    let before = std::fs::read(path).map_err(|e| e.to_string())?;
+    let ps = h.pagesize as usize;
+    let twin = path.with_extension("twin");
+    std::fs::write(&twin, &before).map_err(|e| e.to_string())?;
+    let mut calls = 0u64;
+    // the twin: a write transaction without any call
+    {
+        let db = exec::open_db(&twin, h).map_err(|e| e.to_string())?;
+        let tx = db.tx(true).map_err(|e| e.to_string())?;
+        tx.commit().map_err(|e| format!("empty commit: {}", e))?;
+    }
+    // the subject: failing calls only
+    {
+        let db = exec::open_db(path, h).map_err(|e| e.to_string())?;
+        let tx = db.tx(true).map_err(|e| e.to_string())?;
+        let absent = b"zz-never-created".to_vec();
+        let _ = tx.delete_bucket(absent.clone());
+        let _ = tx.get_bucket(absent.clone());
+        calls += 2;
+        for path_ in model.bucket_paths() {
+            if path_.is_empty() {
+                continue;
+            }
+            let mb = model.at(&path_).unwrap();
+            let mut b = match tx.get_bucket(path_[0].clone()) {
+                Ok(b) => b,
+                Err(_) => continue,
+            };
+            let mut ok = true;
+            for p in &path_[1..] {
+                match b.get_bucket(p.clone()) {
+                    Ok(nb) => b = nb,
+                    Err(_) => {
+                        ok = false;
+                        break;
+                    }
+                }
+            }
+            if !ok {
+                continue;
+            }
+            let _ = tx.create_bucket(path_[0].clone()); // exists
+            let _ = b.delete_bucket(absent.clone()); // missing
+            let _ = b.delete(absent.clone()); // missing
+            let _ = b.get_bucket(absent.clone());
+            calls += 4;
+            for (k, e) in mb.entries.iter().take(4) {
+                match e {
+                    crate::model::Entry::Val(_) => {
+                        let _ = b.delete_bucket(k.clone()); // a pair, not a bucket
+                        let _ = b.create_bucket(k.clone());
+                        let _ = b.get_or_create_bucket(k.clone());
+                        let _ = b.get_bucket(k.clone());
+                        calls += 4;
+                    }
+                    crate::model::Entry::Bucket(_) => {
+                        let _ = b.delete(k.clone()); // a bucket, not a pair
+                        let _ = b.put(k.clone(), b"v".to_vec());
+                        let _ = b.create_bucket(k.clone()); // exists
+                        calls += 3;
+                    }
+                }
+            }
+        }
+        tx.commit().map_err(|e| format!("commit after failing calls only: {}", e))?;
+    }
+    let after = std::fs::read(path).map_err(|e| e.to_string())?;
+    let after_twin = std::fs::read(&twin).map_err(|e| e.to_string())?;
+    let _ = std::fs::remove_file(&twin);
+    let a = changed_pages(&before, &after, ps);
+    let t = changed_pages(&before, &after_twin, ps);
+    if a.len() != t.len() || after.len() != after_twin.len() {
+        viol.push((
+            "error-only-transaction:commit-writes-more-than-an-empty-transaction".into(),
+            format!("a transaction in which all {} calls returned errors rewrote pages {:?}; the same commit without any call rewrites {:?}", calls, a.iter().take(12).collect::<Vec<_>>(), t.iter().take(12).collect::<Vec<_>>()),
+        ));
+    }
+    // (g) strict mode on a file whose free list lost an entry: the commit must be refused without effect
+    let rep = crate::fileck::check(&after, h.pagesize);
+    if let (Some(m), true) = (rep.meta.clone(), rep.ok() && rep.free_entries.len() >= 2) {
+        let mut bad = after.clone();
+        let off = (m.freelist_page * h.pagesize) as usize + 16; // `count` of the free-list page
+        let cnt = u64::from_le_bytes(bad[off..off + 8].try_into().unwrap());
+        bad[off..off + 8].copy_from_slice(&(cnt - 1).to_le_bytes());
+        std::fs::write(path, &bad).map_err(|e| e.to_string())?;
+        let hs = History { strict: true, ..h.clone() };
+        let r = util::catch(|| -> Result<bool, String> {
+            let db = exec::open_db(path, &hs).map_err(|e| e.to_string())?;
+            let refused = {
+                let tx = db.tx(true).map_err(|e| e.to_string())?;
+                tx.get_or_create_bucket("strict-probe").and_then(|b| b.put("k", "v").map(|_| ())).map_err(|e| e.to_string())?;
+                tx.commit().is_err()
+            };
+            if refused {
+                let tx = db.tx(false).map_err(|e| e.to_string())?;
+                if let Some(d) = exec::verify_tx_against(&tx, &model, false) {
+                    return Err(format!("VISIBLE:{}", d));
+                }
+            }
+            Ok(refused)
+        });
+        match r {
+            Ok(Ok(true)) => {
+                // and after a reopen (without strict mode)
+                let db = exec::open_db(path, h).map_err(|e| e.to_string())?;
+                let tx = db.tx(false).map_err(|e| e.to_string())?;
+                if let Some(d) = exec::verify_tx_against(&tx, &model, false) {
+                    viol.push(("strict-commit-refused:but-applied-after-reopen".into(), format!("a strict-mode commit returned an error, yet after reopening the contents changed: {}", d)));
+                }
+                calls += 1;
+            }
+            Ok(Ok(false)) => {} // the hand-made inconsistency was not noticed: nothing to judge
+            Ok(Err(e)) if e.starts_with("VISIBLE:") => viol.push(("strict-commit-refused:but-visible-on-the-same-handle".into(), format!("a strict-mode commit returned an error, yet a later transaction sees its changes: {}", &e[8..]))),
+            Ok(Err(_)) | Err(_) => {} // opening / using the damaged file failed in some other way: not this property's business
+        }
+    }
+    Ok(calls)
+}
+
 /// apply the committed transactions of a history to a model (handles numbering as in exec)
 pub fn replay_model(h: &History, committed: &mut MBucket) {
     for t in &h.txs {
@@ -510,6 +650,22 @@ pub fn run(ctx: &Ctx) -> Shard {
                 }
                 let _ = std::fs::remove_file(&p4);
             }
+        }
+        // (f)+(g) error-only transactions and refused strict commits, on a quarter of the histories
+        if i % 4 == 2 && ctx.replay.is_none() {
+            let p5 = scratch.fresh("f");
+            let mut v: Vec<(String, String)> = Vec::new();
+            match error_only_case(h, &p5, &mut v) {
+                Ok(n) => {
+                    shard.count("failing_calls_in_error_only_transactions", n);
+                    shard.count("error_only_transactions_compared_with_an_empty_commit", 1);
+                }
+                Err(e) => shard.inconclusive_or_workload(ctx, "", &e, &serde_json::json!({"kind": "history", "history": h})),
+            }
+            for (sig, detail) in v {
+                shard.violation(ctx, &sig, &detail, &serde_json::json!({"kind": "history", "history": h, "part": "error-only"}));
+            }
+            let _ = std::fs::remove_file(&p5);
         }
         if shard.samples.len() < 2 {
             shard.sample(serde_json::json!({"origin": h.origin, "txs": h.txs.iter().map(|t| format!("{:?}({} ops)", t.end, t.ops.len())).collect::<Vec<_>>() }));
